@@ -2,7 +2,7 @@
    tables under masks. Only statements, closed by [exact], with Print Assumptions.
    U = unbounded (every shape, length, mask representation). *)
 From Coq Require Import List ZArith Bool.
-From PM Require Import Base C14Model C14Lemmas.
+From PM Require Import Base Mask C14Model C14Lemmas.
 Import ListNotations.
 
 (* U: tvl_and / tvl_or are Kleene conjunction / disjunction at every element *)
